@@ -69,10 +69,97 @@ def shapes(tier, seed):
                 params = {"$k": [None, None]} if "$k" in repr(node) else {}
                 add(node, params, [])
                 add(("dedup", node), params, [])
+    return out + iter_shapes(tier)
+
+
+def iter_shapes(tier):
+    """Iteration-engine programs: accepted trees must execute (twice, and when reused) without an internal error."""
+    out = []
+    X = ("leaf", "X")
+    LC = {"X": ("a", "b", "c"), "Y": ("a", "b", "c")}
+    labels = ("calc d", "proj -a", "proj none", "sel a>k", "sel false", "dedup", "sort b,-a", "slice s:e", "slice s:")
+    progs = []
+    for d in (1, 2):
+        for labs, node, p in templates.unary_sequences(X, LC, d, "std", slice_hi=3, labels=labels):
+            progs.append((node, p.params, p.cons))
+    more = []
+    for node, params, cons in progs:
+        more.append((("mat", node, "m"), params, cons))
+        more.append((("chain", ("mat", node, "m"), ("mat", node, "m")), params, cons))
+        more.append((("xfer", node, "it2"), params, cons))
+        more.append((("dedup", ("xfer", ("mat", node, "m"), "it2")), params, cons))
+    for node, params, cons in progs + more:
+        for n in (0, 2):
+            for decl in ("exact", "loose"):
+                out.append({"eng": "it", "prog": node, "params": params, "cons": cons, "n": n, "decl": decl})
+    return out
+
+
+def run_iter_shape(shape):
+    from lsst.daf.relation import ColumnError, EngineError, LeafRelation, RelationalAlgebraError, iteration
+
+    prog = shape["prog"]
+
+    def make(ctx, vals=None):
+        env = Env(symbolic=ctx is not None)
+        rows = [{c: (ctx.int(f"X.{c}{i}") if ctx is not None else int(vals.get(f"X.{c}{i}", 0))) for c in "abc"} for i in range(shape["n"])]
+        if shape["decl"] == "exact":
+            env.add_iter_leaf("X", "abc", rows)
+        else:
+            env.add_iter_leaf("X", "abc", rows, min_rows=0, max_rows=None)
+        return env
+
+    def attempt(env):
+        memo = {}
+        try:
+            rel = build(prog, env, memo)
+        except (ColumnError, EngineError, RelationalAlgebraError):
+            return "rejected", None
+        try:
+            for _ in range(2):
+                list(rel.engine.execute(rel))
+            top = rel.with_only_columns(frozenset())
+            list(top.engine.execute(top))
+            list(rel.engine.execute(rel))
+        except Exception as e:  # noqa: BLE001
+            return "fails", f"{type(e).__name__}: {e}"[:160]
+        return "ok", None
+
+    def h(ctx):
+        env = make(ctx)
+        templates.declare(ctx, env, shape["params"], shape["cons"])
+        outcome, err = attempt(env)
+        if outcome == "rejected":
+            raise Skip("rejected at construction")
+        return [("accepted tree executes (twice, and as part of a larger tree)", outcome == "ok", {"error": err})]
+
+    res = explore(h, max_paths=1500, wall_s=90)
+    out = res.as_dict()
+    out["shape"] = {"engine": "iteration", "prog": fmt(prog), "rows": shape["n"], "decl": shape["decl"]}
+    out["sample"] = {"engine": "iteration", "program": fmt(prog), "rows": shape["n"], "declared bounds": shape["decl"], "paths": res.paths}
+    for cx in res.cex[:1]:
+        env = make(None, cx["model"])
+        env.bind = templates.bind_concrete(shape["params"], cx["model"])
+        outcome, err = attempt(env)
+        if outcome != "fails":
+            out["status"], out["detail"] = "harness-error", f"counterexample does not reproduce: {fmt(prog)} {cx['info']}"
+            return out
+        out["status"] = VIOLATION
+        out["violations"] = [{"site": f"it:{'>'.join(ops_of(prog))}/execute:{err.split(':')[0]}", "summary": f"{fmt(prog)} rows={shape['n']} {shape['decl']}: {err}",
+                              "replay": {"iter": True, "shape": to_jsonable(shape), "model": cx["model"]}}]
+        return out
+    if res.inconclusive or not res.complete:
+        out["status"], out["detail"] = INCONCLUSIVE, "; ".join(res.notes)[:100]
+    elif res.skipped and not res.obligations:
+        out["status"], out["detail"] = UNDECIDED, res.skipped
+    else:
+        out["status"] = HOLDS
     return out
 
 
 def cost(shape):
+    if shape.get("eng") == "it":
+        return 3 + 4 * ops_of(shape["prog"]).count("sort")
     return len(ops_of(shape["prog"])) + 5 * ops_of(shape["prog"]).count("slice")
 
 
@@ -114,6 +201,8 @@ def _symptom(phase, e):
 
 
 def run_shape(shape, tier):
+    if shape.get("eng") == "it":
+        return run_iter_shape(shape)
     prog = shape["prog"]
     info = {}
 
@@ -213,6 +302,12 @@ def concrete_check(prog, bind):
 
 def replay(v):
     r = v["replay"]
+    if r.get("iter"):
+        sh = r["shape"]
+        sh["prog"] = from_jsonable(sh["prog"])
+        sh["params"] = {k: v for k, v in sh["params"].items()}
+        out = run_iter_shape(sh)
+        return out["status"] == VIOLATION, f"{fmt(sh['prog'])}: {out.get('violations', [{}])[0].get('summary', 'executes')}"
     prog = from_jsonable(r["prog"])
     fails, symptom, detail = concrete_check(prog, r["bind"])
     return fails and symptom == r["symptom"], f"{fmt(prog)} bind={r['bind']}: {symptom} {detail}"
@@ -228,7 +323,8 @@ def describe(tier):
         "bounds": {"depth": "unary 1-2 exhaustive over templates, 3 (10 templates) and 4 (7 templates) curated" +
                    (", 5 curated" if tier == "thorough" else "") + "; all binary nestings of 7 bases x 7 operands, binary programs of C02",
                    "slice bounds": "0..2", "database": "SQLite 3.40 only"},
-        "outside": ["joins in the iteration engine (documented as unsupported: EngineError at execute)", "iteration-engine execution "
-                    "(no-raise on every path is part of C01)", "other SQL dialects"],
+        "outside": ["joins in the iteration engine (documented as unsupported: EngineError at execute)", "other SQL dialects",
+                    "iteration-engine family: unary depth <=2 over 9 templates, materialized / transferred / chained-with-itself "
+                    "variants, 0 and 2 symbolic rows, exact and loose declared bounds, executed twice and once more under a projection"],
         "assumptions": ["acceptance by SQLite stands for 'the target database'"],
     }
